@@ -12,6 +12,10 @@ d = Path(sys.argv[1]).resolve()
 pid = sys.argv[2]
 tier = sys.argv[4] if len(sys.argv) > 4 else "quick"
 patch = d / "patch.diff"
+import fcntl, os
+(V / ".scratch").mkdir(exist_ok=True)
+_lock = open(V / ".scratch" / "repo.lock", "w")
+fcntl.flock(_lock, fcntl.LOCK_EX)  # running checks hold it shared: wait for them, block new ones while /repo is modified
 assert subprocess.run(["git", "-C", "/repo", "status", "--porcelain", "--untracked-files=no"], capture_output=True, text=True).stdout.strip() == "", "/repo is dirty"
 r = subprocess.run(["git", "-C", "/repo", "apply", "--whitespace=nowarn", str(patch)], capture_output=True, text=True)
 if r.returncode:
@@ -26,7 +30,8 @@ try:
                            env={"PYTHONPATH": "/repo/src", "PATH": "/usr/bin:/bin", "EZDXF_DISABLE_C_EXT": "1"} if not pyx else None, timeout=600)
         res["demo_exit_with_change"] = q.returncode
     t = time.time()
-    c = subprocess.run(["./check", pid, "--tier", tier], cwd=V, capture_output=True, text=True, timeout=3600)
+    c = subprocess.run(["./check", pid, "--tier", tier], cwd=V, capture_output=True, text=True, timeout=3600,
+                       env=dict(os.environ, VERIF_REPO_LOCK_HELD="1"))
     res["check_exit"] = c.returncode
     res["wall_s"] = round(time.time() - t, 1)
     lines = [l for l in c.stdout.splitlines() if l.startswith("VIOLATION") or l.startswith("  failing input") or l.startswith("  broken")]
